@@ -4,8 +4,11 @@ From Yv Require Export Common.Base C02.Model C02.Spec C10.Model C10.Spec.
 Inductive impl_out := IOk (o : observation) | ICrash.
 
 (* a case: the script, the probe key used by its EXIT trap action (if it sets
-   one; the key occurs nowhere else), and what the real shell did *)
-Definition case := (prog * option N * impl_out)%type.
+   one; the key occurs nowhere else), whether the observation is unordered
+   (stream run by the real `yash3` binary: probes are observed through files,
+   so only how often each (key, `$?`) pair occurred is known), and what the
+   real shell did *)
+Definition case := (prog * option N * bool * impl_out)%type.
 
 Definition fuel : nat := 3000.
 
@@ -26,28 +29,75 @@ Definition diagnose (trapkey : option N) (e o : observation) : verdict :=
     | Some k => negb (Nat.eqb (count_key k (fst o)) (count_key k (fst e)))
     | None => false
     end in
+  (* for "ran on" / "stopped early" the records of the trap action are left out *)
+  let strip t := match trapkey with
+                 | Some k => filter (fun x => negb (N.eqb (fst x) k)) t
+                 | None => t
+                 end in
   if bad_trap then 5%N
   else if trace_eqb (fst e) (fst o) then (if N.eqb (snd e) (snd o) then 0%N else 3%N)
-  else if is_prefix (fst e) (fst o) then 4%N
-  else if is_prefix (fst o) (fst e) then 6%N
+  else if is_prefix (strip (fst e)) (strip (fst o)) && negb (trace_eqb (strip (fst e)) (strip (fst o))) then 4%N
+  else if is_prefix (strip (fst o)) (strip (fst e)) && negb (trace_eqb (strip (fst e)) (strip (fst o))) then 6%N
+  else 2%N.
+
+(* unordered observations: traces as sorted multisets *)
+Definition item_leb (a b : N * N) : bool :=
+  N.ltb (fst a) (fst b) || (N.eqb (fst a) (fst b) && N.leb (snd a) (snd b)).
+
+Fixpoint insert_item (x : N * N) (l : list (N * N)) : list (N * N) :=
+  match l with
+  | [] => [x]
+  | y :: l' => if item_leb x y then x :: l else y :: insert_item x l'
+  end.
+
+Definition sort_trace (l : list (N * N)) : list (N * N) := fold_right insert_item [] l.
+
+(* multiset inclusion of sorted lists *)
+Fixpoint sub_sorted (a b : list (N * N)) : bool :=
+  match b with
+  | [] => match a with [] => true | _ => false end
+  | y :: b' =>
+      match a with
+      | [] => true
+      | x :: a' => if pair_eqb N.eqb N.eqb x y then sub_sorted a' b' else
+                   if item_leb y x then sub_sorted a b' else false
+      end
+  end.
+
+Definition diagnose_unordered (trapkey : option N) (e o : observation) : verdict :=
+  let bad_trap :=
+    match trapkey with
+    | Some k => negb (Nat.eqb (count_key k (fst o)) (count_key k (fst e)))
+    | None => false
+    end in
+  let te := sort_trace (fst e) in
+  let to := sort_trace (fst o) in
+  if bad_trap then 5%N
+  else if trace_eqb te to then (if N.eqb (snd e) (snd o) then 0%N else 3%N)
+  else if sub_sorted te to then 4%N
+  else if sub_sorted to te then 6%N
   else 2%N.
 
 Definition run_case (c : case) : verdict :=
-  let '(p, trapkey, out) := c in
+  let '(p, trapkey, unordered, out) := c in
   match out with
   | ICrash => 7%N
   | IOk o =>
       let oracle :=
         if wf_prog p then
           match spec_run fuel p with
-          | Some e => diagnose trapkey e o
+          | Some e => if unordered then diagnose_unordered trapkey e o else diagnose trapkey e o
           | None => 99%N
           end
         else 0%N in
       match oracle with
       | 0%N =>
           match model_run fuel p with
-          | Some m => if observation_eqb m o then 0%N else 1%N
+          | Some m =>
+              if unordered
+              then (if trace_eqb (sort_trace (fst m)) (sort_trace (fst o)) && N.eqb (snd m) (snd o)
+                    then 0%N else 1%N)
+              else (if observation_eqb m o then 0%N else 1%N)
           | None => 99%N
           end
       | v => v
